@@ -46,6 +46,7 @@ end`},
 end`},
 	{"coresume", `function()
   local co = coroutine.create(function() emit("cr", $I, 1) coroutine.yield() $F() emit("cr", $I, 2) end)
+  reg(co)
   local n = 0
   while coroutine.status(co) ~= "dead" do
     n = n + 1
@@ -110,11 +111,11 @@ var grans = []gran{
 	// plain find charges len(subject) units at once
 	{"find", `local S = ("a"):rep(150)`, `local p = string.find(S, "b", 1, true)`},
 	// load charges several multiples of the source length, one after the other
-	{"load", `local SRC = "return 1" .. (" "):rep(400)`, `local fn = load(SRC)`},
+	{"load", `local SRC = "return 1" .. (" "):rep(150)`, `local fn = load(SRC)`},
 	// utf8.char charges the number of code points at once (after 1 unit per unpacked item)
-	{"utf8", `local T = {} for k = 1, 100 do T[k] = 65 end`, `local s = utf8.char(table.unpack(T))`},
+	{"utf8", `local T = {} for k = 1, 60 do T[k] = 65 end`, `local s = utf8.char(table.unpack(T))`},
 	// pattern matching with back-tracking: charged after the fact from a budget equal to the unused CPU
-	{"match", `local S = ("a"):rep(40)`, `local m = string.match(S, "a*b")`},
+	{"match", `local S = ("a"):rep(30)`, `local m = string.match(S, "a*b")`},
 	// table.concat: a Go loop charging 1 unit per item (kill in the middle of a library loop)
 	{"concat", `local T = {} for k = 1, 60 do T[k] = "x" end`, `local s = table.concat(T, ",")`},
 	// table.sort: Go's sort calling back into the runtime, with its own recover()
